@@ -210,6 +210,9 @@ fn main() {
             if args.str("mode", "shared-stream") == "last-receiver" {
                 shard.rule = "run = 2000 trials of one configuration (flavour, N, what the other thread does, drop or unsubscribe): two long-lived threads are released together with seeded skew, one makes the last receiver leave, the other one runs the memory manager (drops/clones senders, drops the other stream) after the retire list was filled to a seeded level; then try_send must say Disconnected; distinct = configuration; non-trivial = a reclamation cycle started or completed (MM_EPOCH_BUMP / MM_DEALLOC sites) inside the window in at least one trial".to_string();
                 tight::run_last_receiver(args.u64("seed", 1), args.u64("runs", 100), args.u64("budget-ms", 0), args.flag("small"), &mut shard);
+            } else if args.str("mode", "shared-stream") == "plain-payload" {
+                shard.rule = "run = 0.2-0.7 s of free-running traffic with a plain-data payload (no drop glue) whose hand-written Clone reads the first field, dawdles (every 8th clone, 0.2-2 k spins) and reads the last field: 2-4 consumers on one shared stream of a queue with N in {1,2,4}, 1-2 producers; distinct = hash(configuration, lost position races / 64); non-trivial = consumers really lost position races to each other".to_string();
+                tight::run_plain(args.u64("seed", 1), args.u64("runs", 100), args.u64("budget-ms", 0), args.flag("small"), &mut shard);
             } else if args.str("mode", "shared-stream") == "handle-count" {
                 shard.rule = "run = 1000 trials of one configuration (receiver or sender handles, flavour, N): two long-lived threads clone and drop handles of the same stream / of the same queue at the same time with seeded skew, then the handle counts are read back through behaviour at quiescence (capacity while the stream has handles, which unsubscribe() says 'last', no limit afterwards; no value lost between the surviving senders, Disconnected after the last one); distinct = configuration; every run is non-trivial".to_string();
                 tight::run_handle_count(args.u64("seed", 1), args.u64("runs", 100), args.u64("budget-ms", 0), args.flag("small"), &mut shard);
@@ -251,6 +254,7 @@ fn main() {
             write_out(&args, &shard);
         }
         "fut" => {
+            futx::CROWD_BIAS.store(args.flag("crowd"), std::sync::atomic::Ordering::SeqCst);
             let mut shard = report::Shard::new("mq-fut");
             shard.rule = "run = one futures scenario driven by the harness executor (tasks are polled only when notified) until global quiescence, then every parked task is probe-polled; distinct = hash(configuration shape, per-event thread and result); non-trivial = at least one poll/start_send returned NotReady (a task really parked)".to_string();
             futx::run_many(args.u64("seed", 1), args.u64("runs", 100), args.u64("budget-ms", 0), args.flag("small"), &mut shard);
